@@ -1,3 +1,100 @@
-import Chiritori.Spec.Holds
+import Chiritori.Model.Cli
+/-
+  C20 — The CLI is a faithful wrapper: I/O paths, config file and defaults.
+
+  Proved of the model `Cli.run` (Model/Cli.lean).  What the theorems cannot carry and is shown only by running
+  the real binary (correspondence part of the check): clap's parsing of the command line, `atty`, the file
+  system and pipes, and that the binary does not consult TZ / locale once `--time-limited-current` is given.
+-/
 namespace Chiritori.Props.C20
+open Chiritori Chiritori.Cli
+
+/-- (i) mode dispatch: `--list` wins over `--list-all`; `--list-json` alone cleans -/
+theorem dispatch (a : Args) (w : World) (content : List Char) :
+    resultOf a w content =
+      if a.list then list content a.delimiterStart a.delimiterEnd (configOf a w) a.listJson
+      else if a.listAll then listAll content a.delimiterStart a.delimiterEnd (configOf a w) a.listJson
+      else clean content a.delimiterStart a.delimiterEnd (configOf a w) := rfl
+
+theorem list_json_alone_cleans (a : Args) (w : World) (content : List Char) (h1 : a.list = false) (h2 : a.listAll = false) :
+    resultOf a w content = clean content a.delimiterStart a.delimiterEnd (configOf a w) := by
+  simp [resultOf, h1, h2]
+
+/-- the result text of a run, wherever it is written -/
+def resultText (o : Outcome) (a : Args) : Option (List Char) :=
+  if o.exit ≠ 0 then none
+  else match a.output with
+    | some p => o.files p
+    | none => some o.stdout
+
+/-- (ii) the result is the library result for the corresponding configuration, in every routing:
+    input from `--filename` or stdin, output to stdout or `--output` (also when it names the input file) -/
+theorem result_is_library (a : Args) (w : World) (content out : List Char)
+    (hc : contentOf a w = some content) (hr : resultOf a w content = .ok out) :
+    resultText (run a w) a = some out := by
+  unfold run resultText
+  rw [hc]
+  simp only [hr]
+  cases ho : a.output with
+  | none => simp
+  | some p => simp [writeFile]
+
+/-- input routing does not matter: the same text through `--filename` or through stdin -/
+theorem input_routing (a : Args) (w : World) (p : Path) (text : List Char) (hf : w.files p = some text)
+    (hcfgfile : a.removalMarkerTargetConfig ≠ some p ∨ True) :
+    contentOf { a with filename := some p } w = contentOf { a with filename := none } { w with stdin := text } := by
+  simp [contentOf, hf]
+
+/-- when `--output` names the input file the input is read before it is overwritten -/
+theorem in_place (a : Args) (w : World) (p : Path) (content out : List Char)
+    (hin : a.filename = some p) (hout : a.output = some p) (hf : w.files p = some content)
+    (hr : resultOf a w content = .ok out) : (run a w).files p = some out ∧ (run a w).exit = 0 := by
+  unfold run contentOf
+  rw [hin]
+  simp only [hf, hr, hout]
+  simp [writeFile]
+
+/-- (iii) the target set is the config-file lines chained with the flag values -/
+theorem targets (a : Args) (w : World) :
+    (configOf a w).targets =
+      (match a.removalMarkerTargetConfig with
+       | some p => (match w.files p with | some c => fileLines c | none => [])
+       | none => []) ++ a.removalMarkerTargetName := rfl
+
+/-- ... so a config file with one name per line is the same as repeating the flag per line -/
+theorem config_file_equiv_flags (a : Args) (w : World) (p : Path) (c : List Char)
+    (hf : w.files p = some c) (hflags : a.removalMarkerTargetName = []) :
+    (configOf { a with removalMarkerTargetConfig := some p } w).targets =
+      (configOf { a with removalMarkerTargetConfig := none, removalMarkerTargetName := fileLines c } w).targets := by
+  simp [configOf, targetsOf, hf, hflags]
+
+/-- (iv) option defaults contribute no targets and exactly the documented delimiters, tag names and offset -/
+theorem defaults (w : World) :
+    let c := configOf {} w
+    c.targets = [] ∧ c.tlName = "time-limited".toList ∧ c.rmName = "removal-marker".toList ∧
+    c.offset = "+00:00".toList ∧ ({} : Args).delimiterStart = "<!-- <".toList ∧ ({} : Args).delimiterEnd = "> -->".toList := by
+  simp [configOf, targetsOf]
+
+/-- with no target option no removal-marker is removed (C06's command-line clause) -/
+theorem no_target_option (a : Args) (w : World) (h1 : a.removalMarkerTargetConfig = none)
+    (h2 : a.removalMarkerTargetName = []) (el : Element) : markerIsRemoval (configOf a w) el = false := by
+  have : (configOf a w).targets = [] := by simp [configOf, targetsOf, h1, h2]
+  unfold markerIsRemoval
+  cases (firstAttr el "name".toList).bind (·.value) with
+  | none => rfl
+  | some v => simp [this]
+
+/-- (v) with the current time given, neither `Local::now()` nor the process environment influences the run -/
+theorem environment_irrelevant (a : Args) (w : World) (t : Int × Nat) (now' : Int × Nat)
+    (env' : List (List Char × List Char)) (h : a.timeLimitedCurrent = some t) :
+    run a w = run a { w with now := now', env := env' } := by
+  have hc : configOf a w = configOf a { w with now := now', env := env' } := by
+    simp [configOf, targetsOf, h]
+  simp [run, contentOf, resultOf, hc]
+
+/-- `BufRead::lines` on a typical config file -/
+example : fileLines "feature1\nfeature2\r\n\nlast".toList = ["feature1".toList, "feature2".toList, [], "last".toList] := by
+  decide +kernel
+example : fileLines "feature1\n".toList = ["feature1".toList] := by decide +kernel
+
 end Chiritori.Props.C20
